@@ -342,17 +342,24 @@ def check(program: Program, run: Run) -> None:
     if not by_dialect:
         run.finding("C18/template-selection:Interval.get_sql", "Interval.get_sql no longer selects the template by ctx.dialect", rule="R3")
 
-    # ---- R4
-    early = []
-    for st in init.node.body:
-        if isinstance(st, ast.If) and isinstance(st.test, ast.Name) and st.test.id in ("quarters", "weeks"):
-            has_ret = any(isinstance(x, ast.Return) for x in st.body)
-            stores = any(ast.unparse(x) == f"self.{st.test.id} = {st.test.id}" for x in st.body)
-            early.append((st.test.id, has_ret and stores))
-    ok = dict(early).get("quarters") and dict(early).get("weeks")
-    run.ob("C18/R4 quarters / weeks are stored exclusively (early return)", "Interval.__init__", bool(ok), detail=str(early), where=init.loc())
-    if not ok:
-        run.finding("C18/special-exclusive:Interval.__init__", "quarters/weeks are no longer stored exclusively with an early return: they can be mixed with trimmed components", where=init.loc(), rule="R4")
+    # ---- R4: decided by evaluating the constructor (not by its statement shape): with quarters / weeks supplied together
+    # with trimmed components, only the special unit may be stored
+    probs = []
+    for sp in ("quarters", "weeks"):
+        at = construct({sp: 3, "days": 2, "seconds": 5})
+        got = at.get(sp)
+        if not (isinstance(got, Const) and got.value == 3):
+            probs.append(f"{sp} is stored as {show(got) if got is not None else 'absent'}")
+        mixed = [u for u in ("days", "seconds") if isinstance(at.get(u), Const) and at.get(u).value]
+        lg = at.get("largest")
+        if mixed or (lg is not None and not (isinstance(lg, Const) and lg.value is None)):
+            probs.append(f"Interval({sp}=3, days=2, seconds=5) also stores {mixed or 'largest=' + show(lg)}")
+    at = construct({"quarters": 3, "weeks": 2})
+    if isinstance(at.get("weeks"), Const) and at.get("weeks").value:
+        probs.append("Interval(quarters=3, weeks=2) stores both special units")
+    run.ob("C18/R4 quarters / weeks are stored exclusively", "Interval.__init__", not probs, detail="; ".join(probs)[:200] or "3 mixed constructions evaluated", where=init.loc())
+    if probs:
+        run.finding("C18/special-exclusive:Interval.__init__", "quarters/weeks are no longer stored exclusively: " + probs[0] + " -- they can be mixed with trimmed components", where=init.loc(), rule="R4")
     specials = [("microseconds", "MICROSECOND", {"largest": Const("MICROSECOND"), "smallest": Const("MICROSECOND")}, ("quarters", "weeks")),
                 ("quarters", "QUARTER", {"largest": Const(None), "smallest": Const(None), "quarters": Sym("param", ("quarters",))}, ("weeks",)),
                 ("weeks", "WEEK", {"largest": Const(None), "smallest": Const(None), "weeks": Sym("param", ("weeks",))}, ("quarters",))]
